@@ -25,9 +25,13 @@
 #include "crypto/hash/gost3411-2012.h"
 /* T jobs compare against the table form of LPS over the library's own expanded table, which
  * job gost.tables proves entry by entry equal to the standard's pi / A (specs/gost3411_spec.h) */
-#if defined(VF_GOST_T) && !defined(GOST3411_2012_USE_SMALL_TABLES) && !defined(VF_GOST_LPS_ABSTRACT)
+#if defined(VF_GOST_T) && !defined(GOST3411_2012_USE_SMALL_TABLES) && !defined(VF_GOST_LPS_ABSTRACT) && !defined(VF_GOST_LPS_ORACLE)
 #define VF_GOST_USE_LIB_TABLE 1
 #define VF_GOST_LPS(out, in)	vf_gost_lps_tab(out, in)
+#endif
+#if defined(VF_GOST_T) && defined(GOST3411_2012_USE_SMALL_TABLES) && defined(VF_GOST_USE_LIB_SMALL)
+#define VF_GOST_PI(x)	gost3411_2012_sbox[x]
+#define VF_GOST_AROW(t)	gost3411_2012_A[t]
 #endif
 #include "specs/gost3411_spec.h"
 #include "stubs/hash_libc.h"
@@ -144,6 +148,7 @@ vf_gost_xslp_post(uint64_t a0, uint64_t a1, uint64_t a2, uint64_t a3, uint64_t a
 	VF_GOST_LPS(e, t);
 	return VF_GOST_EQ8(e, now);
 }
+#ifndef VF_GOST_LPS_ORACLE
 static inline void
 gost3411_2012_XSLP(gost3411_2012_ctx_p ctx, uint64_t *dst, const uint64_t *a, const uint64_t *b)
 __CPROVER_requires(__CPROVER_w_ok(ctx, sizeof(gost3411_2012_ctx_t)) && __CPROVER_w_ok(dst, 64) &&
@@ -151,6 +156,24 @@ __CPROVER_requires(__CPROVER_w_ok(ctx, sizeof(gost3411_2012_ctx_t)) && __CPROVER
 __CPROVER_assigns(__CPROVER_object_upto(dst, 64), __CPROVER_object_upto(ctx->sbuf, sizeof(ctx->sbuf)))
 __CPROVER_ensures(vf_gost_xslp_post(VF_GOST_OLD8(a), VF_GOST_OLD8(b), dst))
 ;
+#else
+/* oracle form of the same contract (see specs/gost3411_spec.h, VF_GOST_LPS_ORACLE) */
+#define VF_LPS_IN(i)	(vf_lps_in[__CPROVER_old(vf_lps_n)][i] == (__CPROVER_old(a[i]) ^ __CPROVER_old(b[i])))
+#define VF_LPS_OUT(i)	(dst[i] == vf_lps_out[__CPROVER_old(vf_lps_n)][i])
+static inline void
+gost3411_2012_XSLP(gost3411_2012_ctx_p ctx, uint64_t *dst, const uint64_t *a, const uint64_t *b)
+__CPROVER_requires(__CPROVER_w_ok(ctx, sizeof(gost3411_2012_ctx_t)) && __CPROVER_w_ok(dst, 64) &&
+    __CPROVER_r_ok(a, 64) && __CPROVER_r_ok(b, 64))
+__CPROVER_requires(vf_lps_n < VF_LPS_MAX)
+__CPROVER_assigns(__CPROVER_object_upto(dst, 64), __CPROVER_object_upto(ctx->sbuf, sizeof(ctx->sbuf)))
+__CPROVER_assigns(vf_lps_n, __CPROVER_object_upto(vf_lps_in[vf_lps_n], 64))
+__CPROVER_ensures(vf_lps_n == __CPROVER_old(vf_lps_n) + 1)
+__CPROVER_ensures(VF_LPS_IN(0) && VF_LPS_IN(1) && VF_LPS_IN(2) && VF_LPS_IN(3) &&
+    VF_LPS_IN(4) && VF_LPS_IN(5) && VF_LPS_IN(6) && VF_LPS_IN(7))
+__CPROVER_ensures(VF_LPS_OUT(0) && VF_LPS_OUT(1) && VF_LPS_OUT(2) && VF_LPS_OUT(3) &&
+    VF_LPS_OUT(4) && VF_LPS_OUT(5) && VF_LPS_OUT(6) && VF_LPS_OUT(7))
+;
+#endif
 
 /* VF_T_OWNCTX: the harness owns the context object (concrete pointers to its members keep
  * the verifier's field sensitivity; needed by the composition jobs) */
